@@ -9,7 +9,6 @@ import (
 
 	"github.com/bronlabs/bron-crypto/pkg/base/algebra"
 	ds "github.com/bronlabs/bron-crypto/pkg/base/datastructures"
-	"github.com/bronlabs/bron-crypto/pkg/base/datastructures/bitset"
 	"github.com/bronlabs/bron-crypto/pkg/base/datastructures/hashset"
 	"github.com/bronlabs/bron-crypto/pkg/base/mat"
 	"github.com/bronlabs/bron-crypto/pkg/base/utils/sliceutils"
@@ -178,11 +177,16 @@ func InducedMSP[E algebra.PrimeFieldElement[E]](f algebra.PrimeField[E], c *CNF)
 	// participants to disagree on the MSP row assignments, breaking share
 	// verification in protocols that independently reconstruct the MSP
 	// (e.g. Gennaro DKG over KW).
+	//
+	// The order is that of the sets read as bitmasks (bit id-1 set for every
+	// member id), i.e. the lexicographic order of the member lists sorted in
+	// descending order; comparing the lists places no bound on the IDs.
 	sortedMUS := slices.Clone(c.maximalUnqualifiedSets)
 	slices.SortFunc(sortedMUS, func(a, b ds.Set[ID]) int {
-		ba := bitset.NewImmutableBitSet(a.List()...)
-		bb := bitset.NewImmutableBitSet(b.List()...)
-		return cmp.Compare(uint64(ba), uint64(bb))
+		la, lb := a.List(), b.List()
+		slices.SortFunc(la, func(x, y ID) int { return cmp.Compare(y, x) })
+		slices.SortFunc(lb, func(x, y ID) int { return cmp.Compare(y, x) })
+		return slices.Compare(la, lb)
 	})
 
 	m := len(sortedMUS)
